@@ -3,6 +3,7 @@ import XV.Lemmas.ChainFrame
 import XV.Model.Snapshot
 import XV.Lemmas.SnapWalk
 import XV.Lemmas.SnapLedger
+import XV.Lemmas.SnapEvolve
 /-!
 C18 — snapshot reads return a key's value as of the chosen main-chain block.
 
@@ -39,8 +40,12 @@ What is false: `snapshot_any_branch_statement` — a height table that reports, 
 branches, the block of the OTHER branch (`snapshot_any_branch_counterexample`, witness replayable on the
 implementation); `snapshot_any_branch_partial` names the missing hypothesis, which C04 `c_trunk` provides.
 
-Not covered here: `play` on a non-empty pool and `playForMiner` between B and the read. They need the commutation of
-independent transactions, as in C01; once they are shown to keep the canonical form, `snapshot_canonical_form` applies.
+Mixed histories (Lemmas/SnapEvolve.lean): `snapshot_at_block_eq_live_then_mixed`, `snapshot_at_block_of_vchain_mixed` —
+submissions, `todoBlock`, `play` on ANY pool when nothing is evicted (`NoEvict`), `playForMiner`, in any order.
+
+Not covered here: `play` on a non-empty pool that EVICTS conflicting pending transactions between B and the read. It
+needs the commutation of independent transactions, as in C01; once it is shown to keep the canonical form,
+`snapshot_canonical_form` applies.
 -/
 namespace XV.C18
 open XV.Chain XV.Snapshot
@@ -529,6 +534,124 @@ example : ∀ h ∈ [0, 1, 2, 3, 4], snapshotGet hEnv hNode' (confOf hEnv [1, 2,
     [(7, 0), (6, 2), (5, 0), (4, 0), (3, 0), (2, 0), (1, 0)].find?
       (fun v => !hNode'.pool.contains v.1 && confLe (confOf hEnv [1, 2, 3, 4]) h v.1) := by decide
 example : ∀ i bh, confOf hEnv [1, 2] i = some bh → bh ≤ 2 := confOf_le hEnv [1, 2] 2 (by decide)
+
+-- ================================================================== mixed histories: non-empty pools, mined blocks
+
+/-- **the main theorem for mixed histories** (`Evolves`, Lemmas/SnapEvolve.lean): on top of the state at block B, in ANY
+order, submissions (`doTx`), blocks applied by `todoBlock`, blocks played by `play` (`PlayAndRepost`) on ANY pool as long
+as no pending transaction outside the block conflicts with it (`NoEvict`: nothing is evicted — in particular on an
+empty pool; the pending transactions of the block are confirmed where they are), and blocks mined by `playForMiner`
+(only the generated transactions are applied). `L` = the transactions applied, in order. The snapshot at B's height
+on the final state reads every key as the live reader did at B, for every fuel ≥ (writers of the key in `L`) + 1. -/
+theorem snapshot_at_block_eq_live_then_mixed (e : Env) (hids : EnvIds e) (s s' : St) (confH : Nat → Option Nat)
+    (hB : Nat) (bs : List Block) (L : List Nat)
+    (hconf : ∀ key v, curVer s key = some v → ∃ bh, confH v.1 = some bh ∧ bh ≤ hB)
+    (hev : Evolves e s bs L s')
+    (hhigh : ∀ b ∈ bs, ∀ i ∈ b.txs, ∃ bh, confH i = some bh ∧ hB < bh)
+    (hfresh : ∀ i ∈ s'.pool, confH i = none)
+    (key : String) (fuel : Nat) (hfuel : nWrites e L key + 1 ≤ fuel) :
+    snapshotGet e s' confH hB key fuel = curVer s key := by
+  obtain ⟨r1, r2, r3, _⟩ := hev.run
+  unfold snapshotGet
+  rw [r2]
+  apply walkBack_run e hids s'.pool confH hB key (curVer s) L _ r1 _ fuel hfuel
+  · intro v hv
+    obtain ⟨bh, hb, hle⟩ := hconf key v hv
+    refine ⟨fun hm => ?_, bh, hb, hle⟩
+    rw [hfresh _ hm] at hb; cases hb
+  · intro i hi _
+    rcases r3 i hi with h1 | h1
+    · exact Or.inl h1
+    · obtain ⟨b, hb, hib⟩ := (mem_blocksTxs bs i).mp h1
+      exact Or.inr (hhigh b hb i hib)
+
+/-- the same from the version-chain invariant at B (empty pool there): nothing is assumed about what is pending at
+the end -/
+theorem snapshot_at_block_of_vchain_mixed (e : Env) (hids : EnvIds e) (s s' : St) (confH0 confH : Nat → Option Nat)
+    (hB : Nat) (bs : List Block) (L : List Nat)
+    (hpool : s.pool = []) (hv : VChain e s confH0) (htop : ∀ i bh, confH0 i = some bh → bh ≤ hB)
+    (hgrow : ∀ i bh, confH0 i = some bh → confH i = some bh)
+    (hev : Evolves e s bs L s')
+    (hhigh : ∀ b ∈ bs, ∀ i ∈ b.txs, ∃ bh, confH i = some bh ∧ hB < bh)
+    (key : String) (fuel : Nat) (hfuel : nWrites e L key + 1 ≤ fuel) :
+    snapshotGet e s' confH hB key fuel = curVer s key := by
+  obtain ⟨r1, r2, r3, r4⟩ := hev.run
+  unfold snapshotGet
+  rw [r2]
+  apply walkBack_run e hids s'.pool confH hB key (curVer s) L _ r1 _ fuel hfuel
+  · intro v hcv
+    obtain ⟨bh, h1, h2⟩ := vchain_confirmed_le e s confH0 hB hv hpool htop key v hcv
+    obtain ⟨lk, hl, _⟩ := hv key
+    rw [hcv] at hl
+    obtain ⟨l', rfl, _, _⟩ := hl.head
+    have hn := no_rewrite e hids key v l' (curVer s) L hcv hl r1
+    refine ⟨fun hm => ?_, bh, hgrow _ _ h1, h2⟩
+    rcases r4 _ hm with h3 | h3
+    · rw [hpool] at h3; cases h3
+    · exact hn h3
+  · intro i hi _
+    rcases r3 i hi with h1 | h1
+    · exact Or.inl h1
+    · obtain ⟨b, hb, hib⟩ := (mem_blocksTxs bs i).mp h1
+      exact Or.inr (hhigh b hb i hib)
+
+-- non-vacuity: block 1 = tx 1 (creates "k"); tx 2 (overwrites "k") and tx 3 (creates "j") are submitted; the node MINES
+-- block 2 = award 10 (writes "r") + tx 2, tx 3 stays pending; tx 4 (deletes "k") is submitted; block 3 = award 11 + tx 4 +
+-- tx 5 (re-creates "k", not seen before) arrives and is PLAYED on the pool [3, 4] (no conflict with tx 3); tx 6 (overwrites
+-- "k") is submitted. The snapshots at heights 1, 2, 3 on the final node read "k" as it was live at blocks 1, 2, 3.
+private def mEnv : Env := {
+  txs := [
+    (1, ⟨1, false, [], [], [⟨"k", none⟩], [⟨"k", "a", false⟩]⟩),
+    (2, ⟨2, false, [], [], [⟨"k", some (1, 0)⟩], [⟨"k", "b", false⟩]⟩),
+    (3, ⟨3, false, [], [], [⟨"j", none⟩], [⟨"j", "x", false⟩]⟩),
+    (4, ⟨4, false, [], [], [⟨"k", some (2, 0)⟩], [⟨"k", "", true⟩]⟩),
+    (5, ⟨5, false, [], [], [⟨"k", some (4, 0)⟩], [⟨"k", "c", false⟩]⟩),
+    (6, ⟨6, false, [], [], [⟨"k", some (5, 0)⟩], [⟨"k", "d", false⟩]⟩),
+    (10, ⟨10, true, [], [⟨"miner", 5, 0⟩], [⟨"r", none⟩], [⟨"r", "1", false⟩]⟩),
+    (11, ⟨11, true, [], [⟨"miner", 5, 0⟩], [⟨"r", some (10, 0)⟩], [⟨"r", "2", false⟩]⟩)],
+  blocks := [(1, ⟨1, some 0, 1, [1], "miner"⟩), (2, ⟨2, some 1, 2, [10, 2], "miner"⟩),
+             (3, ⟨3, some 2, 3, [11, 4, 5], "miner"⟩)] }
+private def mConf : Nat → Option Nat := fun i =>
+  if i = 1 then some 1 else if i = 10 ∨ i = 2 then some 2 else if i = 11 ∨ i = 4 ∨ i = 5 then some 3 else none
+private def m1 : St := (play mEnv {} 0 (mEnv.block 1)).1
+private def m1p : St := (doTx mEnv (doTx mEnv m1 0 2).1 0 3).1
+private def m2 : St := (playForMiner mEnv m1p 0 (mEnv.block 2)).1
+private def m2p : St := (doTx mEnv m2 0 4).1
+private def m3 : St := (play mEnv m2p 0 (mEnv.block 3)).1
+private def m3p : St := (doTx mEnv m3 0 6).1
+
+example : m1.pool = [] ∧ m1p.pool = [2, 3] ∧ (playForMiner mEnv m1p 0 (mEnv.block 2)).2 = .ok ∧ m2.pool = [3] ∧
+    m2p.pool = [3, 4] ∧ NoEvict mEnv m2p (mEnv.block 3) ∧ (play mEnv m2p 0 (mEnv.block 3)).2 = .ok ∧ m3.pool = [3] ∧
+    m3p.pool = [3, 6] ∧ curVer m1 "k" = some (1, 0) ∧ curVer m2 "k" = some (2, 0) ∧ curVer m3 "k" = some (5, 0) ∧
+    curVer m3p "k" = some (6, 0) ∧ curVer m3p "j" = some (3, 0) ∧ curVer m3p "r" = some (11, 0) := by decide
+example : snapshotGet mEnv m3p mConf 1 "k" 9 = curVer m1 "k" ∧ snapshotGet mEnv m3p mConf 2 "k" 9 = curVer m2 "k" ∧
+    snapshotGet mEnv m3p mConf 3 "k" 9 = curVer m3 "k" ∧ snapshotGet mEnv m3p mConf 3 "j" 9 = none ∧
+    snapshotGet mEnv m3p mConf 1 "r" 9 = none ∧ snapshotGet mEnv m3p mConf 2 "r" 9 = some (10, 0) := by decide
+example : snapshotGet mEnv m3p mConf 1 "k" 9 = curVer m1 "k" := by
+  have hev := Evolves.submit (e := mEnv) 0 6 (Evolves.play 0 (mEnv.block 3) (Evolves.submit 0 4
+    (Evolves.mine 0 (mEnv.block 2) (Evolves.submit 0 3 (Evolves.submit 0 2 (Evolves.refl m1))) (by decide)))
+    (by decide) (by decide))
+  exact snapshot_at_block_eq_live_then_mixed mEnv (by decide) m1 _ mConf 1 _ _ (confirmed_of_rows _ _ _ (by decide)) hev
+    (by decide) (by decide) "k" 9 (by decide)
+example : snapshotGet mEnv m3p mConf 1 "k" 9 = curVer m1 "k" := by
+  have hev := Evolves.submit (e := mEnv) 0 6 (Evolves.play 0 (mEnv.block 3) (Evolves.submit 0 4
+    (Evolves.mine 0 (mEnv.block 2) (Evolves.submit 0 3 (Evolves.submit 0 2 (Evolves.refl m1))) (by decide)))
+    (by decide) (by decide))
+  have hv1 : VChain mEnv m1 (fun j => if j ∈ (mEnv.block 1).txs then some (mEnv.block 1).height else none) :=
+    vchain_play mEnv (by decide) {} (fun _ => none) 0 (mEnv.block 1) (vchain_empty mEnv {} _ rfl rfl) rfl (by decide)
+      (by decide) (by decide) (fun j bh h => by cases h)
+  exact snapshot_at_block_of_vchain_mixed mEnv (by decide) m1 _ _ mConf 1 _ _ (by decide) hv1
+    (fun i bh h => by
+      by_cases hi : i ∈ (mEnv.block 1).txs
+      · simp only [hi, ↓reduceIte, Option.some.injEq] at h; rw [← h]; decide
+      · simp only [hi, ↓reduceIte] at h; cases h)
+    (fun i bh h => by
+      by_cases hi : i ∈ (mEnv.block 1).txs
+      · simp only [hi, ↓reduceIte, Option.some.injEq] at h
+        have : i = 1 := by simpa [mEnv, Env.block, lookup] using hi
+        subst this; rw [← h]; decide
+      · simp only [hi, ↓reduceIte] at h; cases h)
+    hev (by decide) "k" 9 (by decide)
 
 -- ================================================================== every block up to the tip
 
